@@ -186,7 +186,7 @@ def r17_3(prog, rep):
     for name, (bases, need_origin) in CONTRACT.items():
         pc = predicate_classes(prog, name)
         if pc is None:
-            rep.violated("R17.3", f"{C.INSP}.{name}", prog.module(C.INSP).relpath, "predicate not found", detail="present")
+            rep.undecided("R17.3", f"{C.INSP}.{name}", prog.module(C.INSP).relpath, "predicate not found", detail="present")
             continue
         facts[name] = pc
         got = normalise(pc["classes"])
